@@ -38,6 +38,10 @@ TEXT = {
          "are tiled and stacks taken per instance, row i gets value or value[i]; wrappers/core/dataframe by cross-interface oracle",
          "rank of one value read from a valid instance (generator); delegation glue not modelled",
          "Lean 4 decide over the generated table + tiling lemma; cross-interface differential oracle on all classes and call forms"),
+ "C02": ("proof: for every magnet wrapper's field-selector dispatch (core as a parameter, all mask combinations incl. surface/edge/special cases), Sphere and Dipole in full: B = mu0 H + J and J = mu0 M; "
+         "Sphere's J is the indicator of the ball; the source's mu_0 sites are regenerated each run (one known finding: setter literal)",
+         "mask = geometric inside predicate proved for Sphere only; other classes by stratified oracle; exact real arithmetic",
+         "Lean 4 theorems (algebra over R with arbitrary mu0) on hand-written wrapper models + generated constant-site table + kernel correspondence in IEEE double + residual oracle"),
 }
 props = [json.loads(l) for l in open("properties.jsonl")]
 checks = []
